@@ -183,10 +183,56 @@ def check_target_table(ctx, inst):
             o = any(x in reach for x in obscure_lm)
             rc = any(x in reach for x in recurse_lm)
             got[(c, r)] = 'obscure' if (o and not rc) else 'recurse' if (rc and not o) else 'both' if (o and rc) else 'neither'
+            # every path must arrive at the dispatch: an exit reachable without passing a landmark bypasses the target test's verdict
+            rets = [i for i in b.normal_blocks() if (b.term(i) or {}).get('k') == 'return']
+            if any(x in reach for x in rets):
+                got[(c, r)] += '+bypass'
     if got == expected:
         ctx.ok(inst, ctx.site(b), 'target table (in-target, revealing) -> %s' % {('%d%d' % (int(k[0]), int(k[1]))): v for k, v in got.items()}, sample=str(got))
     else:
         ctx.fail(inst, ctx.site(b), 'target table is %s, expected %s' % (got, expected), key=inst + '|table')
+
+
+def check_elide_primitive(ctx, inst):
+    """Envelope::elide(): self if it already is an Elided element, otherwise Elided(digest(self)) - decided per case arm."""
+    F = ctx.F
+    b = F.method1('Envelope', 'elide')
+    if b is None:
+        ctx.lost(inst, 'Envelope::elide')
+        return
+    tb = TermBuilder(F, b)
+    variants = adt_variants(F, CASE)
+    P1 = ('param', 1)
+    case_atoms = find_terms(b, tb, lambda x: x[0] == 'discr' and m_call(x[1], name='case', self_suffix='Envelope') is not None and strip_sites(m_call(x[1], name='case', self_suffix='Envelope')[0]) == P1)
+    if len(case_atoms) != 1:
+        ctx.fail(inst, ctx.site(b), 'elide() does not decide on the case of self alone', key=inst + '|elide_atoms')
+        return
+    bad = []
+    for idx, vname in enumerate(variants):
+        reach = reach_under(b, tb, {case_atoms[0]: idx})
+        outs = set()
+        for bi, si, t in ret_defs(tb):
+            if bi not in reach:
+                continue
+            st = strip_sites(t)
+            if st == P1:
+                outs.add('self')
+            else:
+                a = m_call(st, name='new_elided')
+                w = is_case_ctor_wrapper(st)
+                if a is not None and own_digest_of(P1, a[0]):
+                    outs.add('elided')
+                elif w is not None and w[2] == 'Elided' and own_digest_of(P1, w[3][0]):
+                    outs.add('elided')
+                else:
+                    outs.add('other:' + fmt(st))
+        want = {'self'} if vname == 'Elided' else {'elided'}
+        if outs != want:
+            bad.append((vname, sorted(outs)))
+    if bad:
+        ctx.fail(inst, ctx.site(b), 'elide() must return Elided(digest(self)) for every case except an already elided element; got %s' % bad, key=inst + '|elide_table')
+    else:
+        ctx.ok(inst, ctx.site(b), 'elide(): Elided -> self; every other case -> Elided(digest(self)) (%d case valuations)' % len(variants))
 
 
 def check_obscure_region(ctx, inst):
